@@ -57,7 +57,7 @@ ASSUMPTIONS = [
     "a configuration the stock Keras layer itself cannot run is skipped and "
     "counted (label stock_unsupported)",
 ]
-BUDGET_S = {"quick": 55, "thorough": 840}
+BUDGET_S = {"quick": 48, "thorough": 840}
 REQUIRED_LABELS = {
     "quick": ["canonical", "hyp", "QDense", "QConv1D", "QConv2D",
               "QDepthwiseConv2D", "QSeparableConv1D", "QSeparableConv2D",
@@ -155,7 +155,7 @@ def _stock_can_run(case, ws, x):
     if fam == "pool":
       R.pooling(case, x, {})
     else:
-      R.reference(case, ws, x, {}, None, R_ract_plain(case))
+      R.reference(case, ws, x, {}, None, _plain_ract(case))
     return True
   except AssertionError:
     raise
@@ -163,7 +163,7 @@ def _stock_can_run(case, ws, x):
     return False
 
 
-def R_ract_plain(case):
+def _plain_ract(case):
   return "sigmoid" if case["layer"] in ("QLSTM", "QGRU") else None
 
 
@@ -310,6 +310,9 @@ def _explain(case, ws, x, qlist, act, ract, yq):
   for r in roles:
     if qlist.get(r) is not None:
       cands.append(("unquantized:" + r, dict(qlist, **{r: None}), act))
+      q1 = qlist[r]
+      cands.append(("quantized_twice:" + r,
+                    dict(qlist, **{r: (lambda w, q1=q1: q1(q1(w)))}), act))
   for i, r1 in enumerate(roles):
     for r2 in roles[i + 1:]:
       if qlist.get(r1) is not qlist.get(r2):
@@ -504,6 +507,17 @@ def canonical():
   add("QGlobalAveragePooling2D", {"data_format": "channels_first",
                                   "keepdims": True},
       {"average": "quantized_po2(4)"}, None, [1, 2, 3, 3])
+  # "applied once": every weighted layer type once more with quantizers that
+  # are not idempotent on every weight role
+  seen = set()
+  for c in list(out):
+    if c["layer"] in seen or G.FAMILY[c["layer"]] == "pool":
+      continue
+    seen.add(c["layer"])
+    c2 = dict(c, q={r: (None if r == "state" else "quantized_tanh(5)"
+                        if r == "bias" else "quantized_ulaw(4,0,1)")
+                    for r in c["q"]})
+    out.append(c2)
   cases = []
   for i, c in enumerate(out):
     for rep in range(2):
